@@ -16,11 +16,16 @@ use pallas_addresses::Address;
 
 /// one guarded call per length lo..=hi (header constant)
 fn sweep_len<const N: usize>(b: &[u8; N], lo: usize, hi: usize, sel: usize) {
+    sweep_len_acc(b, lo, hi, sel, true)
+}
+/// `may_accept` = false for headers no parser accepts (e.g. 0x80: a Byron address is an array of 2): the
+/// "accepted" witness is then not applicable
+fn sweep_len_acc<const N: usize>(b: &[u8; N], lo: usize, hi: usize, sel: usize, may_accept: bool) {
     let mut n = lo;
     while n <= hi {
         if sel == n {
             let r = Address::from_bytes(&b[..n]);
-            kani::cover!(r.is_ok(), "some input accepted");
+            kani::cover!(!may_accept || r.is_ok(), "some input accepted");
             kani::cover!(r.is_err(), "some input rejected");
             core::mem::forget(r);
         }
@@ -109,7 +114,7 @@ macro_rules! addr_total_byron {
             b[0] = $hdr;
             let sel: usize = kani::any();
             kani::assume(sel >= $lo && sel <= $hi);
-            sweep_len(&b, $lo, $hi, sel);
+            sweep_len_acc(&b, $lo, $hi, sel, $hdr == 0x82u8);
         }
     };
 }
